@@ -65,6 +65,12 @@
 ///
 /// Useful functions, enum and misc useful for the ezc3d project
 ///
+#ifdef EZC3D_VERIF
+// Verification hooks (compiled only with -DEZC3D_VERIF; defined by the verification harness)
+extern "C" void ezc3d_verif_on_read(size_t nBytes);
+extern "C" void ezc3d_verif_on_data_decl(size_t nFrames, size_t nPoints, size_t nAnalogs, size_t nSubframes);
+#endif
+
 namespace ezc3d {
     // ---- UTILS ---- //
     ///
